@@ -94,6 +94,13 @@ class Scripted:
             return False, self.resp
         if self.kind == "raise":
             raise RuntimeError("component failed")
+        if self.kind == "flaky":
+            # fails the first time it is asked about a URL; would allow if asked again -
+            # a request is judged once, and a failing judgement is a refusal
+            seen = self.__dict__.setdefault("seen", set())
+            if url not in seen:
+                seen.add(url)
+                raise ConnectionError("policy backend unavailable")
         return True, None
 
 
@@ -115,8 +122,12 @@ def gen_components(ch, sim, log):
             c = Scripted("deny", 0.0, resp)
             d = "deny"
         elif k == 2:
-            c = Scripted("raise", ch.pick("raised", [0.0, 0.05]), None)
-            d = "raise"
+            if ch.chance("flaky", 0.4):
+                c = Scripted("flaky", ch.pick("raised", [0.0, 0.05]), None)
+                d = "raise-once-then-allow"
+            else:
+                c = Scripted("raise", ch.pick("raised", [0.0, 0.05]), None)
+                d = "raise"
         elif k == 3:
             dl = ch.pick("slowd", [0.05, 0.5, 5.0, 29.9995, 30.0005, 40.0], [3, 3, 2, 1, 1, 1])
             kind = ch.pick("slowkind", ["allow", "deny", "raise"], [3, 2, 1])
